@@ -68,6 +68,63 @@ def testIdx (le : L → L → Bool) (desc idx : List L) : List L :=
 
 end generic
 
+/-! ### round 4: in-place operations on one object, multi-step sessions
+
+An `RDMs` object is mutable: `reorder` / `sort_by`, assignments to `pattern_descriptors[key]` and
+writes to `.dissimilarities` change it in place between two bootstrap draws.  The model has no
+state but the labelled content; a session is a fold over that content. -/
+
+section inplace
+variable {L α : Type} [DecidableEq L]
+
+/-- the stack made of the source conditions at positions `sel`, in that (arbitrary) order: square
+    form with NaN diagonal, `m[:, sel][:, :, sel]`, condensed again; every pattern descriptor
+    re-indexed.  `subsample_pattern` is `gather` of the sorted selection. -/
+def Stack.gather (s : Stack L α) (sel : List Nat) : Stack L α :=
+  { nCond := sel.length
+    vecs := s.vecs.map (subVec s.nCond sel)
+    rdmDesc := s.rdmDesc
+    patDesc := extract s.patDesc sel }
+
+/-- `RDMs.reorder(new_order)` (and so `sort_by`): `get_matrices()[:, ix_(p, p)]` → vectors, every
+    pattern descriptor re-indexed.  (The diagonal — 0 in the code, NaN here — is never read when
+    `new_order` has no repeated entry.) -/
+def Stack.reorder (s : Stack L α) (p : List Nat) : Stack L α := s.gather p
+
+/-- `d[key] = vals` on a descriptor dict -/
+def setKey (d : Desc L) (key : String) (vals : List L) : Desc L :=
+  if (d.lookup key).isSome then d.map (fun kv => if kv.1 = key then (key, vals) else kv)
+  else d ++ [(key, vals)]
+
+/-- the in-place operations of a session -/
+inductive InPlace (L α : Type) where
+  /-- `rdms.reorder(p)` / `rdms.sort_by(...)` with resulting order `p` -/
+  | reorder (p : List Nat)
+  /-- `rdms.pattern_descriptors[key] = vals` -/
+  | setPat (key : String) (vals : List L)
+  /-- `rdms.dissimilarities[r, k] = x` -/
+  | write (r k : Nat) (x : Option α)
+
+def Stack.apply (s : Stack L α) : InPlace L α → Stack L α
+  | .reorder p => s.reorder p
+  | .setPat key vals => { s with patDesc := setKey s.patDesc key vals }
+  | .write r k x => { s with vecs := s.vecs.set r ((s.vecs.getD r []).set k x) }
+
+/-- one step of a session on one object -/
+inductive Step (L α : Type) where
+  | op (o : InPlace L α)
+  | draw (patBy : String) (draws : List Nat)
+
+/-- the results of the draws of a session, in order: every draw samples the content the object
+    has at that moment; a draw itself leaves the object unchanged -/
+def runSession (le : L → L → Bool) (s : Stack L α) : List (Step L α) →
+    List (Option (Stack L α × List L))
+  | [] => []
+  | .op o :: rest => runSession le (s.apply o) rest
+  | .draw patBy draws :: rest => bootstrapSamplePattern le s patBy draws :: runSession le s rest
+
+end inplace
+
 /-! ### numpy's coercion of mixed descriptors; the entry points exactly as coded -/
 
 def Lbl.isStr : Lbl → Bool
